@@ -27,6 +27,10 @@ pub enum End {
     TargetResets,
     /// the client<->server link is cut (tap; stream transports only)
     LinkCut,
+    /// application closes; the target reads end-of-stream but keeps its own socket open: the relay must still let go
+    AppClosesTargetLingers,
+    /// target closes; the application reads end-of-stream but keeps its own socket open
+    TargetClosesAppLingers,
     /// nobody listens on the requested port
     TargetRefused,
     /// the requested name does not resolve
@@ -34,7 +38,7 @@ pub enum End {
 }
 
 impl End {
-    pub const ALL: [End; 9] = [
+    pub const ALL: [End; 11] = [
         End::AppClosesClean,
         End::AppClosesInFlight,
         End::TargetClosesClean,
@@ -42,6 +46,8 @@ impl End {
         End::AppResets,
         End::TargetResets,
         End::LinkCut,
+        End::AppClosesTargetLingers,
+        End::TargetClosesAppLingers,
         End::TargetRefused,
         End::TargetUnresolvable,
     ];
@@ -74,7 +80,7 @@ fn soft(sig: &str, msg: String) -> FlowFail {
 
 /// Runs one flow to its terminating event and checks what the *other* side observes. Returns whether the flow had moved
 /// bytes in both directions before the event.
-fn run_one(client_port: u16, f: &FlowEnd, tag: u64, tap: Option<&Tap>) -> (Option<FlowFail>, bool) {
+fn run_one(client_port: u16, f: &FlowEnd, tag: u64, tap: Option<&Tap>, keep: &std::sync::Mutex<Vec<std::net::TcpStream>>) -> (Option<FlowFail>, bool) {
     match f.end {
         End::AppClosesClean | End::TargetClosesClean => {
             let sc = FlowScript {
@@ -208,6 +214,27 @@ fn run_one(client_port: u16, f: &FlowEnd, tag: u64, tap: Option<&Tap>) -> (Optio
                     }
                     return (None, true);
                 }
+                End::AppClosesTargetLingers => {
+                    let _ = app.shutdown(Shutdown::Both);
+                    let r = tgt_rx.wait(deadline(), |r| r.eof || r.err.is_some());
+                    drop(tgt_rx);
+                    // the target's own socket stays open until the descriptor baseline has been checked
+                    keep.lock().unwrap().push(tgt);
+                    if !r.1 {
+                        return (Some(soft("no-eof-at-target", format!("application closed; the target sees neither end-of-stream nor a reset after {:?}", t0.elapsed()))), true);
+                    }
+                    return (None, true);
+                }
+                End::TargetClosesAppLingers => {
+                    let _ = tgt.shutdown(Shutdown::Both);
+                    let r = app_rx.wait(deadline(), |r| r.eof || r.err.is_some());
+                    drop(app_rx);
+                    keep.lock().unwrap().push(app);
+                    if !r.1 {
+                        return (Some(soft("no-eof-at-app", format!("target closed; the application sees neither end-of-stream nor a reset after {:?}", t0.elapsed()))), true);
+                    }
+                    return (None, true);
+                }
                 End::LinkCut => {
                     if let Some(t) = tap {
                         t.cut_links();
@@ -253,11 +280,7 @@ pub fn exec_once(c: &Case) -> CaseResult {
             return res;
         }
     };
-    let tap = if spec.via_tap {
-        Some(Tap::start(cl.link_port, cl.server_port, Policy { up: vec![], down: vec![], pause_us: 0, first_min: 1, recut_bytes: 0 }))
-    } else {
-        None
-    };
+    let tap = cl.tap_listener.take().map(|l| Tap::start(l, cl.server_port, Policy { up: vec![], down: vec![], pause_us: 0, first_min: 1, recut_bytes: 0 }));
     // warm-up flow, then the idle baseline
     if let Err(e) = crate::sys::flow::canary(cl.client_port, 2000, 1) {
         res.fail = Some(FlowFail { soft: true, sig: format!("warm-up/{}", e.sig), msg: format!("{} [{}]\n{}", e.msg, spec.short(), cl.logs(6)) });
@@ -282,13 +305,15 @@ pub fn exec_once(c: &Case) -> CaseResult {
         base = (base.0.min(now.0), base.1.min(now.1));
     }
     let port = cl.client_port;
+    let keep: std::sync::Mutex<Vec<std::net::TcpStream>> = std::sync::Mutex::new(vec![]);
+    let keep = &keep;
     let mut fails: Vec<FlowFail> = vec![];
     let mut moved = false;
     // link cuts end every flow that is open at that moment: they run after the others, one at a time
     let (cuts, others): (Vec<(usize, &FlowEnd)>, Vec<(usize, &FlowEnd)>) = c.flows.iter().enumerate().partition(|(_, f)| f.end == End::LinkCut);
     if c.concurrent {
         std::thread::scope(|sc| {
-            let hs: Vec<_> = others.iter().map(|(i, f)| sc.spawn(move || run_one(port, f, 500 + *i as u64, None))).collect();
+            let hs: Vec<_> = others.iter().map(|(i, f)| sc.spawn(move || run_one(port, f, 500 + *i as u64, None, keep))).collect();
             for h in hs {
                 if let Ok((f, m)) = h.join() {
                     moved |= m;
@@ -298,14 +323,14 @@ pub fn exec_once(c: &Case) -> CaseResult {
         });
     } else {
         for (i, f) in &others {
-            let (fl, m) = run_one(port, f, 500 + *i as u64, None);
+            let (fl, m) = run_one(port, f, 500 + *i as u64, None, keep);
             moved |= m;
             fails.extend(fl);
         }
     }
     for (i, f) in &cuts {
         if spec.via_tap {
-            let (fl, m) = run_one(port, f, 500 + *i as u64, tap.as_ref());
+            let (fl, m) = run_one(port, f, 500 + *i as u64, tap.as_ref(), keep);
             moved |= m;
             fails.extend(fl);
         }
@@ -320,7 +345,7 @@ pub fn exec_once(c: &Case) -> CaseResult {
             fail = Some(soft(
                 &format!("descriptors-not-released/{}", who),
                 format!(
-                    "after a batch of {} ended flows the {} holds {} descriptors (idle baseline {}) and the {} {} (baseline {}), {:?} after the last flow ended; client: {}; server: {}",
+                    "after a batch of {} ended flows ({lingering} lingering peer sockets still held open by the harness) the {} holds {} descriptors (idle baseline {}) and the {} {} (baseline {}), {:?} after the last flow ended; client: {}; server: {}",
                     c.flows.len(),
                     who,
                     if who == "server" { b } else { a },
@@ -330,7 +355,8 @@ pub fn exec_once(c: &Case) -> CaseResult {
                     if who == "server" { base.0 } else { base.1 },
                     max,
                     fd_report(cl.client.pid),
-                    fd_report(cl.server.pid)
+                    fd_report(cl.server.pid),
+                    lingering = keep.lock().unwrap().len()
                 ),
             ));
         }
@@ -440,7 +466,7 @@ pub fn run(ctx: &mut PropCtx) {
         "clean closes must deliver everything the closer wrote before closing (strict); abortive endings only require that the other side observes end-of-stream or a reset".into(),
         "'promptly' = within 12 s for an event that takes milliseconds, confirmed on two more fresh clusters".into(),
         "the idle baseline is the smallest descriptor count seen after a warm-up flow has ended; after the batch the counts are polled for up to 20 s".into(),
-        "endings: application closes (clean / with data in flight towards it), target closes (same two), application resets, target resets, link cut by the tap (stream transports), target refuses, target name does not resolve".into(),
+        "endings: application closes (clean / with data in flight towards it / while the target keeps its own socket open afterwards), target closes (same three), application resets, target resets, link cut by the tap (stream transports), target refuses, target name does not resolve".into(),
     ];
     // every ending on every transport, one protocol rotating with the seed, sequentially: exhaustive over (transport x ending)
     let protos = [Proto::Trojan, Proto::Vmess(3), Proto::Ss22(crate::refimpl::ss2022::C22::Aes128), Proto::SsLegacy(crate::refimpl::ss::Legacy::ChaCha20), Proto::Vmess(4), Proto::Ss22(crate::refimpl::ss2022::C22::ChaCha20)];
